@@ -806,3 +806,69 @@ func summariseRecords(recs []obligationRecord) []map[string]interface{} {
 	}
 	return out
 }
+
+// RunReplay re-runs a recorded counterexample (out/<id>/<harness>.<n>.cex.json, or a copy of it) natively against the
+// current /repo tree: the harness is compiled into the package's test binary through overlays and executed with the
+// recorded values. Exit 1 with a VIOLATION line when the assertion fails again, 0 when it does not.
+func RunReplay(propFile, cexPath string) int {
+	root := verifRoot()
+	var spec PropSpec
+	bz, err := os.ReadFile(propFile)
+	if err != nil {
+		fmt.Println("cannot read prop spec:", err)
+		return 2
+	}
+	if err := json.Unmarshal(bz, &spec); err != nil {
+		fmt.Println("bad prop spec:", err)
+		return 2
+	}
+	var cex struct {
+		Harness string `json:"harness"`
+		Label   string `json:"label"`
+	}
+	cb, err := os.ReadFile(cexPath)
+	if err != nil {
+		fmt.Println("cannot read counterexample:", err)
+		return 2
+	}
+	if err := json.Unmarshal(cb, &cex); err != nil || cex.Harness == "" {
+		fmt.Println("not a counterexample file:", cexPath)
+		return 2
+	}
+	abs, _ := filepath.Abs(cexPath)
+	outDir, err := os.MkdirTemp("", "gosym-replay-")
+	if err != nil {
+		fmt.Println(err)
+		return 2
+	}
+	defer os.RemoveAll(outDir)
+	reFn := regexp.MustCompile(`(?m)^func ` + regexp.QuoteMeta(cex.Harness) + `\(\)`)
+	for i := range spec.Groups {
+		g := &spec.Groups[i]
+		found := false
+		for _, h := range g.Harness {
+			src, _ := os.ReadFile(filepath.Join(root, h))
+			if reFn.Match(src) {
+				found = true
+			}
+		}
+		if !found {
+			continue
+		}
+		rp, err := newReplayer(root, g, nil, outDir)
+		if err != nil {
+			fmt.Println("cannot build the replay binary:", err)
+			return 2
+		}
+		out := rp.run(cex.Harness, abs)
+		fmt.Print(out)
+		if strings.Contains(out, "VERIF-ASSERT-FAIL") || strings.Contains(out, "VERIF-PANIC") {
+			fmt.Printf("VIOLATION property=%s replay=%s\n", spec.ID, cexPath)
+			return 1
+		}
+		fmt.Printf("counterexample does not reproduce on the current tree (harness %s)\n", cex.Harness)
+		return 0
+	}
+	fmt.Printf("harness %s is not part of property %s\n", cex.Harness, spec.ID)
+	return 2
+}
